@@ -23,6 +23,10 @@ type urnQuery struct {
 	valued bool
 	op     string // comparator as written (any case); "" for implicit conditions
 	nested int    // how many AND / OR / parenthesis layers surround the condition
+	// a second URN condition written next to the first one (its own route / comparator / property key / value)
+	extra *urnQuery
+	key   string // property key the condition is about once parsed: the scheme, or "urn"
+	value string
 }
 
 // every scheme the URN library knows (urns.<scheme> and <scheme> are property spellings for each of them)
@@ -186,10 +190,20 @@ func genURNQuery(r *fw.Rand) urnQuery {
 		q.nested = 0 // a bare phone number is also re-read when it is the whole query
 	}
 	q.text = nest(r, q.text, q.nested)
+	q.value = val
+	switch q.route {
+	case "scheme", "urns-prefix":
+		q.key = scheme
+	case "urn-attribute":
+		q.key = "urn"
+	}
 	if q.valued && r.Chance(0.1) {
-		other := condition(r, caseMix(r, fw.Pick(r, []string{"tel", "urn", "urns.twitter"})), fw.Pick(r, []string{"=", "~", "has", "IS"}), "1206555", r.Bool())
-		q.text = q.text + fw.Pick(r, []string{" AND ", " OR ", " "}) + other
+		ex := fw.Pick(r, []urnQuery{{route: "scheme", text: "tel", key: "tel"}, {route: "urn-attribute", text: "urn", key: "urn"}, {route: "urns-prefix", text: "urns.twitter", key: "twitter"}})
+		ex.op, ex.value, ex.valued = fw.Pick(r, []string{"=", "~", "has", "IS"}), "7788990", true
+		ex.text = condition(r, caseMix(r, ex.text), ex.op, ex.value, r.Bool())
+		q.text = q.text + fw.Pick(r, []string{" AND ", " OR ", " "}) + ex.text
 		q.nested++
+		q.extra = &ex
 	}
 	return q
 }
@@ -273,12 +287,12 @@ func operatorGrid() []urnQuery {
 }
 
 // valuedURNConditions lists the conditions of a parsed query that compare a URN against a non-empty value.
-func valuedURNConditions(n contactql.QueryNode, out *[]string) {
+func valuedURNConditions(n contactql.QueryNode, out *[]*contactql.Condition) {
 	switch t := n.(type) {
 	case *contactql.Condition:
 		isURN := t.PropertyType() == contactql.PropertyTypeURN || (t.PropertyType() == contactql.PropertyTypeAttribute && t.PropertyKey() == contactql.AttributeURN)
 		if isURN && t.Value() != "" {
-			*out = append(*out, t.String())
+			*out = append(*out, t)
 		}
 	case *contactql.BoolCombination:
 		for _, c := range t.Children() {
@@ -312,7 +326,7 @@ func checkQueries(res *fw.Result, r *fw.Rand, qs []urnQuery) {
 			res.Count("query.panics", 1)
 			continue
 		}
-		var condsN, condsR []string
+		var condsN, condsR []*contactql.Condition
 		if errN == nil {
 			valuedURNConditions(pn.Root(), &condsN)
 		}
@@ -341,6 +355,11 @@ func checkQueries(res *fw.Result, r *fw.Rand, qs []urnQuery) {
 			res.Seen("query_operators", strings.ToLower(q.op))
 			res.Seen("query_operator_spellings", q.op)
 		}
+		if q.extra != nil {
+			res.Count("clause.query_rejected.two_urn_conditions", 1)
+			res.Count("clause.query_rejected.operator_"+opClass(q.extra.op), 1)
+			res.Seen("query_operator_spellings", q.extra.op)
+		}
 		if q.nested > 0 {
 			res.Count("clause.query_rejected.nested", 1)
 		}
@@ -361,8 +380,17 @@ func checkQueries(res *fw.Result, r *fw.Rand, qs []urnQuery) {
 			res.Count("query.reinterpreted_without_urn", 1)
 			continue
 		}
-		res.Violate("C19|query-accepted|"+q.route+"|"+opClass(q.op)+"-operator",
+		// name the condition that got through (a query may hold two)
+		got := q
+		if q.extra != nil && !(condsR[0].PropertyKey() == q.key && condsR[0].Value() == q.value) && condsR[0].PropertyKey() == q.extra.key && condsR[0].Value() == q.extra.value {
+			got = *q.extra
+		}
+		var accepted []string
+		for _, c := range condsR {
+			accepted = append(accepted, c.String())
+		}
+		res.Violate("C19|query-accepted|"+got.route+"|"+opClass(got.op)+"-operator",
 			fmt.Sprintf("under redaction policy urns ParseQuery accepts %q as %q: a condition on a URN value", q.text, pr.String()),
-			map[string]any{"query": q.text, "route": q.route, "operator": q.op, "nesting": q.nested, "default_country": string(country), "parsed_under_urns": pr.String(), "urn_conditions": condsR, "parsed_under_none": pn.String()})
+			map[string]any{"query": q.text, "route": got.route, "operator": got.op, "nesting": q.nested, "default_country": string(country), "parsed_under_urns": pr.String(), "urn_conditions": accepted, "parsed_under_none": pn.String()})
 	}
 }
